@@ -775,10 +775,11 @@ class AxiLiteCdcHarness(CdcHarness):
          "an operation is outstanding, the slave cooperates, both clocks keep ticking, no channel handshake ever happens"),
     )
 
-    def __init__(self, name, mem="sim", fault=True, cap=None):
+    def __init__(self, name, mem="sim", fault=True, cap=None, acts=(0, 1, 2)):
         CdcHarness.__init__(self, name, AxiLiteCdcWrapper, mem, fault)
         if cap:
             self.cap = cap
+        self.acts = tuple(acts)          # what an idle master may do: 0 stay idle, 1 write, 2 read
         self.done = [0, 0]
 
     def bind(self, D):
@@ -800,7 +801,7 @@ class AxiLiteCdcHarness(CdcHarness):
 
     def choices(self, env):
         idle = env[0] == 0
-        return [(t, act) for t, ts in CLOCKED for act in ((0, 1, 2) if idle and "a" in ts else (None,))]
+        return [(t, act) for t, ts in CLOCKED for act in (self.acts if idle and "a" in ts else (None,))]
 
     @staticmethod
     def _pack(P, **f):
@@ -938,7 +939,7 @@ class AxiLiteCdcHarness(CdcHarness):
         return d
 
     def vacuity(self):
-        if not self.done[0] or not self.done[1]:
+        if (1 in self.acts and not self.done[0]) or (2 in self.acts and not self.done[1]):
             return f"completed (writes, reads) = {self.done}"
         return None
 
@@ -1121,6 +1122,10 @@ def _menu():
     for mem in ("sim", "emitted"):
         nm = f"AXILiteClockDomainCrossing(a->b)/single-outstanding/mem={mem}"
         reg(nm, T, lambda nm=nm, mem=mem: AxiLiteCdcHarness(nm, mem=mem, cap=AXI_CAP))
+    # quick: the same crossing with a master that only writes / only reads (three / two of the five channel FIFOs move)
+    for tag, acts in (("writes only", (0, 1)), ("reads only", (0, 2))):
+        nm = f"AXILiteClockDomainCrossing(a->b)/single-outstanding,{tag}/mem=sim"
+        reg(nm, Q, lambda nm=nm, acts=acts: AxiLiteCdcHarness(nm, mem="sim", cap=AXI_CAP, acts=acts))
 
 
 AXI_CAP = 1_000_000
